@@ -4,6 +4,7 @@ import (
 	"go/ast"
 	"go/token"
 	"go/types"
+	"strings"
 
 	"verif/internal/core"
 	"verif/internal/flow"
@@ -70,6 +71,131 @@ func c06MentionsCall(f *flow.Func, n ast.Node, names ...string) bool {
 	return found
 }
 
+// c06SignerRole resolves the three unexported methods of the signer the rules are anchored in by
+// what they do, the current name being only a tie-breaker:
+//
+//	canon    reads (at least two of) BodyHash, CanonicalHeaders, SignedHeaders, takes the request, returns a string
+//	sign     assigns SigningContext.Signature and calls canon
+//	hashBody assigns SigningContext.BodyHash and takes the request
+func c06SignerRole(c *core.Ctx, role string) *flow.Func {
+	if g, ok := c06RoleCache[role]; ok {
+		return g
+	}
+	g := c06SignerRoleFind(c, role)
+	c06RoleCache[role] = g
+	return g
+}
+
+var c06RoleCache = map[string]*flow.Func{}
+
+func c06SignerRoleFind(c *core.Ctx, role string) *flow.Func {
+	bodyF := structField(c, c06sig, "SigningContext", "BodyHash")
+	canonF := structField(c, c06sig, "SigningContext", "CanonicalHeaders")
+	signedF := structField(c, c06sig, "SigningContext", "SignedHeaders")
+	sigF := structField(c, c06sig, "SigningContext", "Signature")
+	if bodyF == nil || canonF == nil || signedF == nil || sigF == nil {
+		return nil
+	}
+	takesRequest := func(g *flow.Func) bool {
+		if g.Type == nil || g.Type.Params == nil {
+			return false
+		}
+		for _, fld := range g.Type.Params.List {
+			if tv, ok := g.Info.Types[fld.Type]; ok && tv.Type != nil && tv.Type.String() == "*net/http.Request" {
+				return true
+			}
+		}
+		return false
+	}
+	assigns := func(g *flow.Func, fld *types.Var) bool {
+		found := false
+		ast.Inspect(g.Body, func(n ast.Node) bool {
+			if as, ok := n.(*ast.AssignStmt); ok {
+				for _, l := range as.Lhs {
+					if c06FieldSel(g, l) == fld {
+						found = true
+					}
+				}
+			}
+			return !found
+		})
+		return found
+	}
+	var cands []*flow.Func
+	name := ""
+	switch role {
+	case "canon":
+		name = "hashCanonicalRequest"
+		cands = funcsByRole(c, c06sig, func(g *flow.Func, fd *ast.FuncDecl) bool {
+			if !takesRequest(g) || fd.Type.Results == nil || len(fd.Type.Results.List) != 1 {
+				return false
+			}
+			if tv, ok := g.Info.Types[fd.Type.Results.List[0].Type]; !ok || tv.Type == nil || tv.Type.String() != "string" {
+				return false
+			}
+			// two of the three are enough: each single write is a protective construct that a
+			// defect may have removed, it must not be a precondition of finding the function
+			n := 0
+			for _, fld := range []*types.Var{bodyF, canonF, signedF} {
+				if c06MentionsField(g, g.Body, fld) {
+					n++
+				}
+			}
+			return n >= 2 && !assigns(g, bodyF) && !assigns(g, canonF) && !assigns(g, signedF)
+		})
+	case "hashBody":
+		name = "hashBody"
+		cands = funcsByRole(c, c06sig, func(g *flow.Func, fd *ast.FuncDecl) bool { return takesRequest(g) && assigns(g, bodyF) })
+	case "sign":
+		name = "sign"
+		canon := c06SignerRole(c, "canon")
+		if canon == nil {
+			return nil
+		}
+		canonName := c06FullName(canon)
+		cands = funcsByRole(c, c06sig, func(g *flow.Func, fd *ast.FuncDecl) bool {
+			return assigns(g, sigF) && len(callsTo(g, g.Body, false, canonName)) > 0
+		})
+		if len(cands) == 0 {
+			// the call of canon is what a rule demands; without it fall back to the name
+			cands = funcsByRole(c, c06sig, func(g *flow.Func, fd *ast.FuncDecl) bool {
+				return assigns(g, sigF) && fd.Name.Name == name
+			})
+		}
+	}
+	if len(cands) > 1 {
+		var named []*flow.Func
+		for _, g := range cands {
+			if fd, ok := g.Node.(*ast.FuncDecl); ok && fd.Name.Name == name {
+				named = append(named, g)
+			}
+		}
+		cands = named
+	}
+	if len(cands) != 1 {
+		c.Errorf("R-C06-4: anchor: cannot resolve the signer method playing the role %q (%d candidates)", role, len(cands))
+		return nil
+	}
+	c.Count("functions_analysed", 1)
+	return cands[0]
+}
+
+// c06FullName renders the declared function of g in the form calleeIs expects (module prefix stripped).
+func c06FullName(g *flow.Func) string {
+	if fo, ok := c06FuncObj(g).(*types.Func); ok {
+		return strings.ReplaceAll(fo.FullName(), Mod, "")
+	}
+	return ""
+}
+
+// c06FuncObj returns the object of the declared function g.
+func c06FuncObj(g *flow.Func) types.Object {
+	if fd, ok := g.Node.(*ast.FuncDecl); ok {
+		return g.Info.Defs[fd.Name]
+	}
+	return nil
+}
+
 func c06Signer(c *core.Ctx) {
 	c06Canonical(c)
 	c06Sign(c)
@@ -82,7 +208,7 @@ func c06Signer(c *core.Ctx) {
 
 func c06Canonical(c *core.Ctx) {
 	const rule = "R-C06-4"
-	f := fn(c, c06sig, "SigningContext", "hashCanonicalRequest")
+	f := c06SignerRole(c, "canon")
 	if f == nil {
 		return
 	}
@@ -262,30 +388,33 @@ func c06Canonical(c *core.Ctx) {
 		}
 	}
 
-	// the query used on verify comes from the request URL
-	if g := fn(c, c06sig, "SigningContext", "initFromSignedRequest"); g != nil {
+	// the query used on verify comes from the request URL (searched over the reach of Verify)
+	if v := fn(c, c06sig, "Signer", "Verify"); v != nil {
 		gcons := fname(c06sig, "SigningContext", "initFromSignedRequest")
-		gdefs := c06SingleDefs(g, g.Body)
 		n, good := 0, 0
-		var at ast.Node = g.Body
-		ast.Inspect(g.Body, func(x ast.Node) bool {
-			as, ok := x.(*ast.AssignStmt)
-			if !ok || len(as.Lhs) != len(as.Rhs) {
+		var at ast.Node = v.Body
+		for _, g := range reach(v, 3) {
+			g := g
+			gdefs := c06DefsOf(g)
+			ast.Inspect(g.Body, func(x ast.Node) bool {
+				as, ok := x.(*ast.AssignStmt)
+				if !ok || len(as.Lhs) != len(as.Rhs) {
+					return true
+				}
+				for i, l := range as.Lhs {
+					if c06FieldSel(g, l) != queryF {
+						continue
+					}
+					n++
+					at = as
+					r := c06Resolve(g, gdefs, as.Rhs[i])
+					if c06MentionsField(g, r, urlF) && (c06MentionsCall(g, r, "(*net/url.URL).Query") || c06MentionsField(g, r, uRawQuery)) {
+						good++
+					}
+				}
 				return true
-			}
-			for i, l := range as.Lhs {
-				if c06FieldSel(g, l) != queryF {
-					continue
-				}
-				n++
-				at = as
-				r := c06Resolve(g, gdefs, as.Rhs[i])
-				if c06MentionsField(g, r, urlF) && (c06MentionsCall(g, r, "(*net/url.URL).Query") || c06MentionsField(g, r, uRawQuery)) {
-					good++
-				}
-			}
-			return true
-		})
+			})
+		}
 		c.Check(n > 0 && n == good, rule, gcons+"|verify takes the query from the request URL", pos(c, at),
 			"SigningContext.Query is assigned req.URL.Query()", "on verify the query fed into the canonical request is not taken from the request URL: the signature does not bind the query the backend will see")
 	}
@@ -408,7 +537,11 @@ func c06ValueClosureStop(g *flow.Func, roots []ast.Expr, stop func(n ast.Node) b
 			if !ok {
 				return true
 			}
-			v, ok := g.Info.Uses[id].(*types.Var)
+			o := g.Info.Uses[id]
+			if o == nil {
+				o = g.Info.Defs[id]
+			}
+			v, ok := o.(*types.Var)
 			if !ok || seen[v] {
 				return true
 			}
@@ -509,13 +642,15 @@ func c06BufferParts(f *flow.Func, defs map[types.Object]ast.Expr, roots []ast.Ex
 // becomes SigningContext.Signature, contains the canonical request hash and the timestamp.
 func c06Sign(c *core.Ctx) {
 	const rule = "R-C06-4"
-	f := fn(c, c06sig, "SigningContext", "sign")
+	f := c06SignerRole(c, "sign")
+	canon := c06SignerRole(c, "canon")
 	sigF := structField(c, c06sig, "SigningContext", "Signature")
 	timeF := structField(c, c06sig, "SigningContext", "Time")
 	secretF := structField(c, c06sig, "SigningContext", "AccessKeySecret")
-	if f == nil || sigF == nil || timeF == nil || secretF == nil {
+	if f == nil || canon == nil || sigF == nil || timeF == nil || secretF == nil {
 		return
 	}
+	canonObj, _ := c06FuncObj(canon).(*types.Func)
 	cons := fname(c06sig, "SigningContext", "sign")
 	defs := c06SingleDefs(f, f.Body)
 	var roots []ast.Expr
@@ -543,7 +678,7 @@ func c06Sign(c *core.Ctx) {
 	hashed, timed := 0, 0
 	for _, p := range parts {
 		r := c06Resolve(f, defs, p)
-		if c06MentionsCall(f, r, "(*"+Mod+c06sig+".SigningContext).hashCanonicalRequest") {
+		if canonObj != nil && c06MentionsCall(f, r, canonObj.FullName()) {
 			hashed++
 		}
 		if c06MentionsField(f, r, timeF) {
@@ -618,7 +753,7 @@ func c06HeaderRead(f *flow.Func, n ast.Node) bool {
 
 func c06HashBody(c *core.Ctx) {
 	const rule = "R-C06-4"
-	f := fn(c, c06sig, "SigningContext", "hashBody")
+	f := c06SignerRole(c, "hashBody")
 	v := fn(c, c06sig, "Signer", "Verify")
 	bodyF := structField(c, c06sig, "SigningContext", "BodyHash")
 	if f == nil || v == nil || bodyF == nil {
@@ -641,7 +776,12 @@ func c06HashBody(c *core.Ctx) {
 		}
 	}
 	// Verify must compute the body hash in verify mode
-	hcalls := callsTo(v, v.Body, false, "(*"+c06sig+".SigningContext).hashBody")
+	var hcalls []*ast.CallExpr
+	if f != nil && v != nil {
+		for _, rc := range callsToReach(v, 3, c06FullName(f)) {
+			hcalls = append(hcalls, rc.Call)
+		}
+	}
 	vcons := fname(c06sig, "Signer", "Verify") + "|body hash computed in verify mode"
 	switch {
 	case len(hcalls) == 0:
@@ -786,11 +926,12 @@ func c06HashBody(c *core.Ctx) {
 		var badEx *flow.Exit
 		exits := 0
 		for _, ex := range res.Exits {
-			if ex.Kind != flow.ExitReturn || ex.Return == nil || len(ex.Return.Results) != 1 {
+			rs := c06Results(f, ex)
+			if ex.Kind != flow.ExitReturn || len(rs) != 1 {
 				continue
 			}
 			st := ex.State
-			if c06ReturnedNilness(f, st, ex.Return.Results[0]) == flow.False || st.Is(verifyKey, flow.False) {
+			if c06ReturnedNilness(f, st, rs[0]) == flow.False || st.Is(verifyKey, flow.False) {
 				continue
 			}
 			exits++
@@ -866,11 +1007,25 @@ func c06Verify(c *core.Ctx) {
 	preF := structField(c, c06sig, "SigningContext", "isPresign")
 	ttlF := structField(c, c06sig, "Signer", "ttl")
 	secretF := structField(c, c06sig, "SigningContext", "AccessKeySecret")
-	signFn := fn(c, c06sig, "SigningContext", "sign")
+	signFn := c06SignerRole(c, "sign")
 	if sigF == nil || timeF == nil || expF == nil || preF == nil || ttlF == nil || secretF == nil || signFn == nil {
 		return
 	}
-	defs := c06SingleDefs(f, f.Body)
+	// everything below looks at Verify together with the same-package functions it calls
+	// (extracted helpers); objects are distinct per function, so one merged map of
+	// single-definition locals serves all of them
+	fns := reach(f, 3)
+	defs := map[types.Object]ast.Expr{}
+	for _, g := range fns {
+		for o, d := range c06DefsOf(g) {
+			defs[o] = d
+		}
+	}
+	inspectAll := func(visit func(n ast.Node) bool) {
+		for _, g := range fns {
+			ast.Inspect(g.Body, visit)
+		}
+	}
 	isField := func(e ast.Expr, fld *types.Var) bool { return c06FieldSel(f, ast.Unparen(e)) == fld }
 	strip := func(e ast.Expr) ast.Expr { // conversions []byte(x), string(x)
 		for {
@@ -887,16 +1042,56 @@ func c06Verify(c *core.Ctx) {
 	}
 	// presented signature: a local saved from the Signature field; recomputed: the field itself
 	savedStmt := map[types.Object]ast.Node{}
-	isSaved := func(e ast.Expr) bool {
-		e = strip(e)
-		o := c06Obj(f, e)
-		if o == nil {
-			return false
+	savedObjs := map[types.Object]bool{}
+	for o, d := range defs {
+		if d != nil && isField(d, sigF) {
+			savedObjs[o] = true
 		}
-		d, ok := defs[o]
-		return ok && d != nil && isField(d, sigF)
 	}
-	ast.Inspect(f.Body, func(n ast.Node) bool {
+	// a parameter of a helper that is handed such a value at a call in the reach denotes the
+	// same value (`if !ctx.signatureIs(req, claimed)`, `if ctx.expired(age)`), unless the helper
+	// reassigns it
+	aliasParams := func(objs map[types.Object]bool, direct func(e ast.Expr) bool) {
+		for round := 0; round < 2; round++ {
+			inspectAll(func(n ast.Node) bool {
+				call, ok := n.(*ast.CallExpr)
+				if !ok {
+					return true
+				}
+				fo, ok := f.Callee(call).(*types.Func)
+				if !ok || fo.Pkg() != f.Pkg.Types {
+					return true
+				}
+				fd := declOf(f.Pkg, fo)
+				if fd == nil || fd.Type.Params == nil {
+					return true
+				}
+				idx := 0
+				for _, fld := range fd.Type.Params.List {
+					for _, nm := range fld.Names {
+						if idx < len(call.Args) {
+							ao := c06Obj(f, strip(call.Args[idx]))
+							if (ao != nil && objs[ao]) || (direct != nil && direct(call.Args[idx])) {
+								if po := f.Info.Defs[nm]; po != nil {
+									if _, assigned := defs[po]; !assigned {
+										objs[po] = true
+									}
+								}
+							}
+						}
+						idx++
+					}
+				}
+				return true
+			})
+		}
+	}
+	aliasParams(savedObjs, nil)
+	isSaved := func(e ast.Expr) bool {
+		o := c06Obj(f, strip(e))
+		return o != nil && savedObjs[o]
+	}
+	inspectAll(func(n ast.Node) bool {
 		switch s := n.(type) {
 		case *ast.AssignStmt:
 			if len(s.Lhs) == len(s.Rhs) {
@@ -921,23 +1116,27 @@ func c06Verify(c *core.Ctx) {
 	var eqAtoms, upper, lower, expire, enabled []c06Atom
 	var presignKeys []string
 	var ageObjs = map[types.Object]bool{}
-	for o, d := range defs {
-		if d == nil {
-			continue
+	// the age of the signature: now.Sub(ctx.Time) / time.Since(ctx.Time)
+	isAgeExpr := func(e ast.Expr) bool {
+		call, ok := ast.Unparen(e).(*ast.CallExpr)
+		if !ok || len(call.Args) != 1 || !isField(call.Args[0], timeF) {
+			return false
 		}
-		if call, ok := ast.Unparen(d).(*ast.CallExpr); ok {
-			switch calleeFull(f, call) {
-			case "(time.Time).Sub":
-				if sel, ok := ast.Unparen(call.Fun).(*ast.SelectorExpr); ok && c06MentionsCall(f, sel.X, "time.Now") && len(call.Args) == 1 && isField(call.Args[0], timeF) {
-					ageObjs[o] = true
-				}
-			case "time.Since":
-				if len(call.Args) == 1 && isField(call.Args[0], timeF) {
-					ageObjs[o] = true
-				}
-			}
+		switch calleeFull(f, call) {
+		case "(time.Time).Sub":
+			sel, ok := ast.Unparen(call.Fun).(*ast.SelectorExpr)
+			return ok && !c06MentionsField(f, sel.X, timeF)
+		case "time.Since":
+			return true
+		}
+		return false
+	}
+	for o, d := range defs {
+		if d != nil && isAgeExpr(d) {
+			ageObjs[o] = true
 		}
 	}
+	aliasParams(ageObjs, isAgeExpr)
 	isAge := func(e ast.Expr) bool { return ageObjs[c06Obj(f, ast.Unparen(e))] }
 	// bound classifies e as +ttl (1), -ttl (-1), expire time (2) or 0
 	bound := func(e ast.Expr) int {
@@ -966,7 +1165,7 @@ func c06Verify(c *core.Ctx) {
 		}
 		return flow.False
 	}
-	ast.Inspect(f.Body, func(n ast.Node) bool {
+	inspectAll(func(n ast.Node) bool {
 		switch x := n.(type) {
 		case *ast.SelectorExpr:
 			if c06FieldSel(f, x) == preF {
@@ -1049,12 +1248,15 @@ func c06Verify(c *core.Ctx) {
 		return true
 	})
 
-	signCalls := callsTo(f, f.Body, false, "(*"+c06sig+".SigningContext).sign")
+	var signCalls []*ast.CallExpr
+	for _, rc := range callsToReach(f, 3, c06FullName(signFn)) {
+		signCalls = append(signCalls, rc.Call)
+	}
 	// the secret of the access key: secret, ok := store.GetSecret(id); ctx.AccessKeySecret = secret
 	secretObjs := map[types.Object]bool{}
 	var okKeys []string
 	lookups := 0
-	ast.Inspect(f.Body, func(n ast.Node) bool {
+	inspectAll(func(n ast.Node) bool {
 		as, ok := n.(*ast.AssignStmt)
 		if !ok || len(as.Rhs) != 1 || len(as.Lhs) != 2 {
 			return true
@@ -1072,8 +1274,118 @@ func c06Verify(c *core.Ctx) {
 		}
 		return true
 	})
+	// interpret in place the helpers that hold one of the constructs above (or lead to one);
+	// everything else stays an opaque call as before
+	interesting := map[*ast.BlockStmt]bool{}
+	mark := func(n ast.Node) {
+		for _, g := range fns {
+			if contains(g.Body, n) {
+				interesting[g.Body] = true
+			}
+		}
+	}
+	inspectAll(func(n ast.Node) bool {
+		switch x := n.(type) {
+		case *ast.BinaryExpr:
+			switch x.Op {
+			case token.EQL, token.NEQ, token.LSS, token.GTR, token.LEQ, token.GEQ:
+				k1 := f.EqKey(x.X, x.Y)
+				k2, _ := f.Atom(x)
+				for _, lst := range [][]c06Atom{eqAtoms, upper, lower, expire, enabled} {
+					for _, a := range lst {
+						if a.key == k1 || a.key == k2 {
+							mark(x)
+						}
+					}
+				}
+			}
+		case *ast.CallExpr:
+			for _, sc := range signCalls {
+				if sc == x {
+					mark(x)
+				}
+			}
+			for _, a := range eqAtoms {
+				if a.key == f.CallKey(x) {
+					mark(x)
+				}
+			}
+			if ifaceMethodCall(f, x, c06sig, "AccessKeyStore", "GetSecret") {
+				mark(x)
+			}
+		case *ast.AssignStmt:
+			for _, l := range x.Lhs {
+				if c06FieldSel(f, l) == secretF {
+					mark(x)
+				}
+			}
+			for _, st := range savedStmt {
+				if st == n {
+					mark(x)
+				}
+			}
+		}
+		return true
+	})
+	for changed := true; changed; {
+		changed = false
+		for _, g := range fns {
+			if interesting[g.Body] {
+				continue
+			}
+			for _, call := range calls(g.Body, true) {
+				if fo, ok := f.Callee(call).(*types.Func); ok && fo.Pkg() == f.Pkg.Types {
+					if fd := declOf(f.Pkg, fo); fd != nil && interesting[fd.Body] {
+						interesting[g.Body] = true
+						changed = true
+					}
+				}
+			}
+		}
+	}
+	var opaque []types.Object
+	for _, g := range fns {
+		if !interesting[g.Body] || g.Body == signFn.Body {
+			if o := c06FuncObj(g); o != nil {
+				opaque = append(opaque, o)
+			}
+		}
+	}
+	feas := c06NewFeasible(f)
+	// The decided atoms are mirrored into event facts ("ev:atom:<key>"): the engine may drop the
+	// caller's facts when a second state enters a helper interpreted in place (the parameter is
+	// merged into the dependencies of the caller-named key on the first exit and killed on the
+	// next entry). The mirror is cleared by hand whenever a local or field it mentions is assigned.
+	var atomKeys []string
+	for _, lst := range [][]c06Atom{eqAtoms, upper, lower, expire, enabled} {
+		for _, a := range lst {
+			atomKeys = append(atomKeys, a.key)
+		}
+	}
+	atomKeys = append(atomKeys, presignKeys...)
+	atomKeys = append(atomKeys, okKeys...)
+	ev := func(k string) string { return "ev:atom:" + k }
+	mirror := func(st *flow.State) {
+		for _, k := range atomKeys {
+			if v := st.Get(k); v != flow.Unknown {
+				st.Set(ev(k), v)
+			}
+		}
+	}
+	forget := func(st *flow.State, token string) {
+		for _, k := range atomKeys {
+			if strings.Contains(k, token) {
+				st.Set(ev(k), flow.Unknown)
+			}
+		}
+	}
 	res := analyze(c, f, flow.Config{
 		NoHavoc: true,
+		Inline:  inlineSamePkg(f, opaque...),
+		AfterAssume: func(st *flow.State, cond ast.Expr, outcome bool) {
+			feas.afterAssume(st)
+			mirror(st)
+		},
 		OnCall: func(st *flow.State, call *ast.CallExpr, callee types.Object, deferred bool) {
 			for _, sc := range signCalls {
 				if sc == call {
@@ -1084,11 +1396,33 @@ func c06Verify(c *core.Ctx) {
 					// the recomputation overwrites SigningContext.Signature: earlier comparisons are void
 					for _, a := range eqAtoms {
 						st.Set(a.key, flow.Unknown)
+						st.Set(ev(a.key), flow.Unknown)
 					}
 				}
 			}
 		},
 		OnNode: func(st *flow.State, n ast.Node) {
+			feas.onNode(st, n)
+			c06TrackNonNil(f, st, n)
+			mirror(st)
+			var lhs []ast.Expr
+			switch a := n.(type) {
+			case *ast.AssignStmt:
+				lhs = a.Lhs
+			case *ast.IncDecStmt:
+				lhs = []ast.Expr{a.X}
+			case *ast.ValueSpec:
+				for _, nm := range a.Names {
+					lhs = append(lhs, nm)
+				}
+			}
+			for _, l := range lhs {
+				if fld := c06FieldSel(f, l); fld != nil {
+					forget(st, "."+fld.Name())
+				} else if id, ok := ast.Unparen(l).(*ast.Ident); ok && id.Name != "_" {
+					forget(st, f.Render(id))
+				}
+			}
 			for _, s := range savedStmt {
 				if s == n && st.Is("ev:signed", flow.True) {
 					st.Set("ev:savedlate", flow.True)
@@ -1112,7 +1446,7 @@ func c06Verify(c *core.Ctx) {
 	}
 	holds := func(st *flow.State, atoms []c06Atom) bool {
 		for _, a := range atoms {
-			if st.Get(a.key) == a.want {
+			if st.Get(ev(a.key)) == a.want {
 				return true
 			}
 		}
@@ -1120,7 +1454,7 @@ func c06Verify(c *core.Ctx) {
 	}
 	ttlOff := func(st *flow.State) bool {
 		for _, a := range enabled {
-			v := st.Get(a.key)
+			v := st.Get(ev(a.key))
 			if v != flow.Unknown && v != a.want {
 				return true
 			}
@@ -1129,7 +1463,7 @@ func c06Verify(c *core.Ctx) {
 	}
 	notPresigned := func(st *flow.State) bool {
 		for _, k := range presignKeys {
-			if st.Is(k, flow.False) {
+			if st.Is(ev(k), flow.False) {
 				return true
 			}
 		}
@@ -1142,16 +1476,21 @@ func c06Verify(c *core.Ctx) {
 	var eqV, ttlV, expV, keyV verdict
 	accepts := 0
 	for _, ex := range res.Exits {
-		if ex.Kind != flow.ExitReturn {
+		if ex.Kind != flow.ExitReturn || feas.infeasible(ex.State) {
 			continue
 		}
-		if ex.Return == nil || len(ex.Return.Results) != 1 {
+		rs := c06Results(f, ex)
+		if len(rs) != 1 {
 			c.Undecide("R-C06-4", cons+"|accept only on signature equality", pos(c, ex.At), "a return of Verify without an explicit result")
 			return
 		}
 		st := ex.State
-		if c06ReturnedNilness(f, st, ex.Return.Results[0]) == flow.False {
+		result := rs[0]
+		if c06ReturnedNilness(f, st, result) == flow.False {
 			continue
+		}
+		if r := ex.Ret(); r != ex.Return && r != nil && len(r.Results) == 1 && c06ReturnedNilness(f, st, r.Results[0]) == flow.False {
+			continue // `return helper(..)`: the helper's own return yields a non-nil error
 		}
 		accepts++
 		if eqV.bad == nil {
@@ -1169,7 +1508,7 @@ func c06Verify(c *core.Ctx) {
 		if keyV.bad == nil {
 			okKnown := false
 			for _, k := range okKeys {
-				if st.Is(k, flow.True) {
+				if st.Is(ev(k), flow.True) {
 					okKnown = true
 				}
 			}
